@@ -1,6 +1,7 @@
 """C15 — timer: never early, due timers expire, next_expiration = heap minimum's deadline (structure)."""
 from rl import (entry_methods, loc_endswith, path_cond, trace_summary, where, const_of, fmt_val, fmt_loc, fields_of)
 from common import (w4_pending_stores_waker, w4_helper, poll_variant, contains)
+from engine import some
 from typestate import check_typestate
 from lib import CheckerError
 
@@ -197,6 +198,15 @@ def run(C, R):
                             good = True
                     if e['k'] == 'cmp' and e['a'] == a and e['b'] == b:
                         good = True
+                # partial_cmp may delegate to the (checked) total order: Some(self.cmp(other))
+                if fn.get('name') == 'partial_cmp':
+                    for e in path.events:
+                        if e['k'] == 'call' and e['name'] == 'cmp' and len(e['args']) == 2 and \
+                                e['args'][0] in (('ref', (('P', 'self'),)), ('param', 'self')) and \
+                                e['args'][1] in (('ref', (('P', 'other'),)), ('param', 'other')) and \
+                                (path.ret == some(e['ret']) or (e.get('mode') == 'inline' and path.ret[0] == 'agg'
+                                                                 and path.ret[2] == 'Some')):
+                            good = True
                 # eq: equality is symmetric; `!(a != b)` is the same predicate
                 if fn.get('name') == 'eq' and path.ret in (('bin', 'Eq', a, b), ('bin', 'Eq', b, a),
                                                             ('un', 'Not', ('bin', 'Ne', a, b)),
@@ -229,8 +239,21 @@ def run(C, R):
             sat = [e for e in path.events if e['k'] == 'call' and e['name'] == 'saturating_add']
             nows = now_calls(path)
             mins = [e for e in path.events if e['k'] == 'call' and e['name'] == 'min']
-            good = (len(sat) == 1 and path.ret == sat[0]['ret'] and nows and sat[0]['args'][0] == nows[0]['ret']
-                    and mins and contains(sat[0]['args'][1], mins[0]['ret']))
+            good = len(sat) == 1 and path.ret == sat[0]['ret'] and nows and sat[0]['args'][0] == nows[0]['ret']
+            if good:
+                # the addend is the duration in ms clamped to u64: min(millis, MAX), or the same spelled as a branch
+                x = sat[0]['args'][1]
+                ms = [e for e in path.events if e['k'] == 'call' and e['name'] == 'as_millis']
+                U64MAX = ('const', 2 ** 64 - 1)
+                from common import cmp_fact
+                if mins and contains(x, mins[0]['ret']):
+                    pass
+                elif ms and x == U64MAX and cmp_fact(E, path.facts, 'Gt', ms[0]['ret'], U64MAX) == 1:
+                    pass
+                elif ms and contains(x, ms[0]['ret']) and cmp_fact(E, path.facts, 'Gt', ms[0]['ret'], U64MAX) == 0:
+                    pass
+                else:
+                    good = False
             if good:
                 R.ok('C15.R5', '%s|saturating_add(now, min(..))' % dfn['path'])
             else:
